@@ -309,12 +309,12 @@ theorem roomWaitCancelled_good {cap : Cap} {L R : Bool} (p : Pool) (m : Nat) (r 
   · exact ⟨(tame_finishMeta _ m _).toTame0.good0 k0, (tame_finishMeta _ m _).map kmap, (tame_finishMeta _ m _).acc kacc,
       CancEx.close ((tame_finishMeta _ m _).cok _ kcn) (fun x _ _ hx _ => Or.inl (finishMeta_frame _ m _ x hx))⟩
 
-theorem good_wakeWaitRoom {cap : Cap} {L R : Bool} (p : Pool) (m : Nat) (r : Req) (hg : Good cap L R p)
+theorem good_wakeWaitRoomCore {cap : Cap} {L R : Bool} (p : Pool) (m : Nat) (r : Req) (hg : Good cap L R p)
     (hlt : m < p.reqs.length)
     (hfr : ReqAt p m (fun x => x.frame = .waitRoom ∧ x.kind = r.kind ∧ x.acquired = r.acquired))
     (hmc : ReqAt p m (fun x => x.mustCancel = r.mustCancel)) :
-    Good cap L R (p.wakeWaitRoom m r) := by
-  unfold wakeWaitRoom
+    Good cap L R (p.wakeWaitRoomCore m r) := by
+  unfold wakeWaitRoomCore
   simp only
   have hrm := removeWaiterL_grants m p.sem.waiters
   -- the pool after the waiter was removed and `mustCancel` cleared
@@ -418,6 +418,16 @@ theorem good_wakeWaitRoom {cap : Cap} {L R : Bool} (p : Pool) (m : Nat) (r : Req
       obtain ⟨hv, hw⟩ := hg.slot
       exact ⟨hv, by simp [modReq, hw, removeWaiterL]⟩
 
+theorem good_wakeWaitRoom {cap : Cap} {L R : Bool} (p : Pool) (m : Nat) (r : Req) (hg : Good cap L R p)
+    (hlt : m < p.reqs.length)
+    (hfr : ReqAt p m (fun x => x.frame = .waitRoom ∧ x.kind = r.kind ∧ x.acquired = r.acquired))
+    (hmc : ReqAt p m (fun x => x.mustCancel = r.mustCancel)) :
+    Good cap L R (p.wakeWaitRoom m r) := by
+  unfold wakeWaitRoom
+  split
+  · exact good_wakeWaitRoomCore p m r hg hlt hfr hmc
+  · exact hg
+
 /-- the call's own semaphore handed the spawner a slot: it is in flight until the task is created or the spawner
 starts waiting for room; one element is in hand -/
 theorem good_mapSemGranted {cap : Cap} {L R : Bool} (p : Pool) (m : Nat) (r : Req)
@@ -510,12 +520,12 @@ theorem mapWake_facts (s : Sem) (m : Nat) (c : Bool) (v : Nat) (hv : s.value = .
     show ((v + grantsL (removeWaiterL m s.waiters).2 : Nat) : Int) + 0 = _
     omega
 
-theorem good_wakeWaitMapSem {cap : Cap} {L R : Bool} (p : Pool) (m : Nat) (r : Req) (hg : Good cap L R p)
+theorem good_wakeWaitMapSemCore {cap : Cap} {L R : Bool} (p : Pool) (m : Nat) (r : Req) (hg : Good cap L R p)
     (hlt : m < p.reqs.length)
     (hat : ReqAt p m (fun x => x.mapSem = r.mapSem ∧ x.frame = .waitMapSem ∧ x.items.length = r.items.length ∧ x.kind = r.kind))
     (hmc : ReqAt p m (fun x => x.mustCancel = r.mustCancel)) :
-    Good cap L R (p.wakeWaitMapSem m r) := by
-  unfold wakeWaitMapSem
+    Good cap L R (p.wakeWaitMapSemCore m r) := by
+  unfold wakeWaitMapSemCore
   simp only
   generalize hc : ((removeWaiterL m r.mapSem.waiters).1 == some WaitSt.cancelled || r.mustCancel) = c
   obtain ⟨x0, hx0⟩ : ∃ x, p.reqs[m]? = some x := ⟨p.reqs[m], List.getElem?_eq_getElem hlt⟩
@@ -594,6 +604,16 @@ theorem good_wakeWaitMapSem {cap : Cap} {L R : Bool} (p : Pool) (m : Nat) (r : R
       have : ((removeWaiterL m r.mapSem.waiters).1 == some WaitSt.granted) = false := by simpa using hgr
       simp only [this, Bool.false_and, Bool.false_eq_true, if_false] at h0
       exact h0.good rfl (fun c fr x => x.1) (hsnF rfl).hcm
+
+theorem good_wakeWaitMapSem {cap : Cap} {L R : Bool} (p : Pool) (m : Nat) (r : Req) (hg : Good cap L R p)
+    (hlt : m < p.reqs.length)
+    (hat : ReqAt p m (fun x => x.mapSem = r.mapSem ∧ x.frame = .waitMapSem ∧ x.items.length = r.items.length ∧ x.kind = r.kind))
+    (hmc : ReqAt p m (fun x => x.mustCancel = r.mustCancel)) :
+    Good cap L R (p.wakeWaitMapSem m r) := by
+  unfold wakeWaitMapSem
+  split
+  · exact good_wakeWaitMapSemCore p m r hg hlt hat hmc
+  · exact hg
 
 theorem good_stepMeta {cap : Cap} {L R : Bool} (p : Pool) (m : Nat) (hg : Good cap L R p) : Good cap L R (p.stepMeta m) := by
   unfold stepMeta
